@@ -15,6 +15,9 @@ in-memory overlays. Expected: every check exits 0 and prints exactly the KNOWN-F
  M10 augassign : `x op= e` on plain names rewritten to `x = x op e`
  M11 hoist     : call arguments that are calls are hoisted into temporaries
  M12 inline    : single-use temporaries are inlined into the next statement
+ M13 if-invert : `if c: A else: B` -> `if not c: B else: A`
+ M14 else      : explicit `else:` after a branch that returns/raises
+ M15 compreh.  : append loops become list comprehensions
 """
 from __future__ import annotations
 
@@ -253,6 +256,69 @@ class M12(ast.NodeTransformer):
         return node
 
 
+def _terminal(body) -> bool:
+    return bool(body) and isinstance(body[-1], (ast.Return, ast.Raise, ast.Continue, ast.Break))
+
+
+class M13(ast.NodeTransformer):
+    """statement-level guard inversion: `if c: A else: B` -> `if not c: B else: A`."""
+
+    def visit_If(self, node):
+        self.generic_visit(node)
+        if node.orelse and not (len(node.orelse) == 1 and isinstance(node.orelse[0], ast.If)):
+            return ast.copy_location(ast.If(test=ast.UnaryOp(op=ast.Not(), operand=node.test), body=node.orelse, orelse=node.body), node)
+        return node
+
+
+class M14(ast.NodeTransformer):
+    """`if c: <...return/raise>` followed by more statements  ->  `if c: ... else: <the rest>` (explicit else after a terminal branch)."""
+
+    def _nest(self, body):
+        for i, st in enumerate(body):
+            if isinstance(st, ast.If) and not st.orelse and _terminal(st.body) and i + 1 < len(body):
+                rest = self._nest(body[i + 1:])
+                st.orelse = rest
+                return body[:i + 1]
+        return body
+
+    def visit_FunctionDef(self, node):
+        self.generic_visit(node)
+        node.body = self._nest(node.body)
+        return node
+
+
+class M15(ast.NodeTransformer):
+    """append loop -> comprehension: `xs = []` + `for v in it: xs.append(e)` -> `xs = [e for v in it]` (adjacent statements only)."""
+
+    def _conv(self, body):
+        out = []
+        i = 0
+        while i < len(body):
+            st = body[i]
+            nx = body[i + 1] if i + 1 < len(body) else None
+            if isinstance(st, ast.Assign) and len(st.targets) == 1 and isinstance(st.targets[0], ast.Name) and isinstance(st.value, ast.List) and not st.value.elts \
+                    and isinstance(nx, ast.For) and not nx.orelse and len(nx.body) == 1 and isinstance(nx.body[0], ast.Expr) and isinstance(nx.body[0].value, ast.Call) \
+                    and isinstance(nx.body[0].value.func, ast.Attribute) and nx.body[0].value.func.attr == "append" and isinstance(nx.body[0].value.func.value, ast.Name) \
+                    and nx.body[0].value.func.value.id == st.targets[0].id and len(nx.body[0].value.args) == 1 \
+                    and not any(isinstance(n, ast.Name) and n.id == st.targets[0].id for n in ast.walk(nx.body[0].value.args[0])) \
+                    and not any(isinstance(n, ast.Name) and n.id == st.targets[0].id for n in ast.walk(nx.iter)):
+                comp = ast.ListComp(elt=nx.body[0].value.args[0], generators=[ast.comprehension(target=nx.target, iter=nx.iter, ifs=[], is_async=0)])
+                out.append(ast.copy_location(ast.Assign(targets=st.targets, value=comp), st))
+                i += 2
+                continue
+            out.append(st)
+            i += 1
+        return out
+
+    def generic_visit(self, node):
+        super().generic_visit(node)
+        for fld in ("body", "orelse", "finalbody"):
+            b = getattr(node, fld, None)
+            if isinstance(b, list) and b and isinstance(b[0], ast.stmt):
+                setattr(node, fld, self._conv(b))
+        return node
+
+
 MUTATORS: Dict[str, Callable[[ast.Module], ast.Module]] = {
     "M1-reformat": lambda t: t,
     "M2-logging": lambda t: M2().visit(t),
@@ -266,6 +332,9 @@ MUTATORS: Dict[str, Callable[[ast.Module], ast.Module]] = {
     "M10-augassign": lambda t: M10().visit(t),
     "M11-hoist-args": lambda t: M11().visit(t),
     "M12-inline-temps": lambda t: M12().visit(t),
+    "M13-if-invert": lambda t: M13().visit(t),
+    "M14-explicit-else": lambda t: M14().visit(t),
+    "M15-comprehension": lambda t: M15().visit(t),
 }
 
 
